@@ -14,6 +14,9 @@ EXPLANATION = (
     "number-rows-repeated, 1..3 sheets x requested sheet 1..4. Expected: the logical table of the requested sheet; a "
     "missing sheet or a non-positive / non-numeric repeat count is a DataFormatError. Container faults (not a zip, no "
     "content.xml, malformed XML) are decided by the escape analysis (C06 O6.3 / C10)."
+    " Added in rounds 6 and 7: (O15.5) an empty file, a file that is no archive, an archive without content.xml"
+    " and malformed XML end in DataFormatError before any row, whatever the reader finds out about the file"
+    " beforehand; negative blank counts are refused."
 )
 ASSUMPTIONS = ["ElementTree decodes encodings and XML specials; the abstract element model mirrors the ElementTree API subset used"]
 
